@@ -359,7 +359,9 @@ void ExecImpl::op_copy_watched(const Op& op, bool move) {
   if (shadow) return;
   Obs o; obs_stack.push_back(&o);
   auto* src = rwatched[static_cast<size_t>(wid)];
+  // a const source selects the implicit copy constructor, a non-const lvalue the forwarding constructor template
   if (move) rwatched.push_back(new trompeloeil::deathwatched<Plain>(std::move(*src)));
+  else if (op.a[1] & 1) rwatched.push_back(new trompeloeil::deathwatched<Plain>(static_cast<const trompeloeil::deathwatched<Plain>&>(*src)));
   else rwatched.push_back(new trompeloeil::deathwatched<Plain>(*src));
   obs_stack.pop_back();
   std::vector<XRep> none;
@@ -471,6 +473,7 @@ void ExecImpl::op_wide(const Op& op) {
   bool threw = false;
   try { wide_run(c, R, ((op.a[1] % 50) + 50) % 50); } catch (...) { threw = true; }
   obs_stack.pop_back();
+  drain_stream_tracers(o);   // a tracer may be alive: its record of this call belongs to this operation, not to the next call
   std::string who = std::string("wide call ") + R.name + " (arity " + std::to_string(R.n) + ")";
   if (threw || !o.reports.empty()) { fail("C09,C01", "wide_rejected", who + " with wildcard matchers was not accepted" + (o.reports.empty() ? "" : ": " + o.reports[0].msg)); return; }
   if (R.hits[0] < 1 || R.hits[1] != 1 || R.hits[2] != 1 || R.returned != 4242 + R.n || !R.satisfied) { fail("C09,C08", "wide_clauses", who + ": clause evaluation counts WITH/SIDE_EFFECT/RETURN = " + std::to_string(R.hits[0]) + "/" + std::to_string(R.hits[1]) + "/" + std::to_string(R.hits[2]) + ", returned " + std::to_string(R.returned)); return; }
